@@ -719,6 +719,12 @@ def m_str(it, args, kw):
         return it.ite(x.e, "True", "False")
     if isinstance(x, Abstract) and hasattr(x, "p_str"):
         return x.p_str(it)
+    if isinstance(x, SObj):
+        import inspect as _i
+        f = _i.getattr_static(x.cls, "__str__", None)
+        if isinstance(f, types.FunctionType):
+            return it.call(f, [x], {})
+        return fresh_text(it, "objstr")
     import decimal as _d
     if isinstance(x, SVal) and x.pytype is _d.Decimal:
         from . import models_dec
@@ -772,7 +778,8 @@ def m_isinstance(it, args, kw):
     v, t = args
     if isinstance(v, SIte):
         return SBool(z3.If(v.c, zbool(_isinst(it, v.a, t)), zbool(_isinst(it, v.b, t))))
-    return _isinst(it, v, t)
+    r = _isinst(it, v, t)
+    return SBool(r) if isinstance(r, z3.ExprRef) else r
 
 
 def _isinst(it, v, t):
@@ -800,6 +807,18 @@ def m_type(it, args, kw):
 
 
 def m_getattr(it, args, kw):
+    if isinstance(args[0], Abstract) and hasattr(args[0], "p_getattr_sym") and is_sym(args[1]) and not (isinstance(args[1], SStr) and args[1].concrete()):
+        try:
+            return args[0].p_getattr_sym(it, args[1])
+        except C.Raised as r:
+            if len(args) > 2 and issubclass(r.exc.cls, AttributeError):
+                return args[2]
+            raise
+    if args[0] is None and is_sym(args[1]) and not (isinstance(args[1], SStr) and args[1].concrete()):
+        # A-NONEATTR: a symbolic attribute name is assumed not to be one of NoneType's own (dunder) attributes
+        if len(args) > 2:
+            return args[2]
+        raise Raised(AttributeError, "'NoneType' object has no attribute")
     o, name = args[0], it.concrete_key(args[1])
     if len(args) > 2:
         try:
@@ -850,6 +869,8 @@ def m_list(it, args, kw):
     x = args[0]
     if isinstance(x, GList):
         return x
+    if isinstance(x, Abstract) and hasattr(x, "p_tolist"):
+        return x.p_tolist(it)
     return list(it.iterate(x))
 
 
@@ -1020,7 +1041,11 @@ def m_unescape(it, args, kw):
     if not deep_concrete(ents):
         raise Unsupported("unescape with symbolic entity table")
     if isinstance(data, SStr):
-        raise Unsupported("unescape on shaped string")
+        # no '&' can occur: every str.replace of the chain is the identity
+        amp = zor(*[zand(g, zbool(code_eq(c, 38))) if not isinstance(c, int) else (g if c == 38 else False) for g, c in data.items])
+        if amp is False or not it.branch(amp):
+            return data
+        raise Unsupported("unescape on shaped string that may contain '&'")
     return unescape_term(it, dict(ents), data.e)
 
 
